@@ -172,3 +172,40 @@ Definition drained_ok (s : ostate) : bool :=
           Z.eqb (s_nallocs s) 0
   | _ => true
   end.
+
+(* ---------- triggers of recorded known findings that corrupt the books of a history ----------
+   Once one of these steps has happened, later accounting failures in the same history are consequences of it.
+   1: resource update (si.Allocation with a changed resource) for the real ask of an in-flight placeholder swap
+      (allocated flag set, not yet in the allocation list): the delta is booked on application, queue and node.
+   2: the shim releases (not PLACEHOLDER_REPLACED) a placeholder whose swap is in flight: the real ask stays
+      allocated for ever (DESIGN finding #17).
+   3: the swap confirmation arrives for an application that is Completing with its state timer already cleared:
+      the application completes and the real allocation is added afterwards (DESIGN finding #13). *)
+Definition is_inflight_real_req (a : oapp) (x : oalloc) : bool :=
+  negb (oa_ph x) && negb (oa_release x =? 0) && oa_allocated x &&
+  match find_alloc (ap_allocs a) (oa_key x) with Some _ => false | None => true end.
+
+Definition known_trigger (pre : ostate) (st : ostep) : option N :=
+  match st_op st with
+  | OpAlloc r =>
+      match find_app pre (rq_app r) with
+      | Some a => match find_alloc (ap_requests a) (rq_key r) with
+                  | Some x => if is_inflight_real_req a x && negb (res_eqz (oa_res x) (oget (rq_res r))) then Some 1 else None
+                  | None => None end
+      | None => None
+      end
+  | OpRelease app key ttype =>
+      match find_app pre app with
+      | Some a =>
+          match find_alloc (ap_allocs a) key with
+          | Some x =>
+              if oa_ph x && negb (oa_release x =? 0) then
+                (if negb (ttype =? TT_PlaceholderReplaced) then Some 2
+                 else if (ap_state a =? ST_Completing) && negb (ap_statetimer a) then Some 3 else None)
+              else None
+          | None => None
+          end
+      | None => None
+      end
+  | _ => None
+  end.
